@@ -92,6 +92,42 @@ func cases(mock bool) []readCase {
 			return r, nil, nil
 		}})
 	}
+	// Batch gets that one region's key group cannot carry in a single request: the snapshot cuts a
+	// group after 5120 keys (batchGetSize), so 5130 absent filler keys (sorting directly after a or
+	// c) in front of, between or behind the real keys make two sub-requests with different contents
+	// whatever the region layout.
+	for _, p := range []string{"a", "c"} {
+		var fill []string
+		for i := 0; i < 5130; i++ {
+			fill = append(fill, fmt.Sprintf("%s\x00%04d", p, i))
+		}
+		for _, shape := range []string{"front", "middle", "back"} {
+			var ks3 []string
+			switch shape {
+			case "front":
+				ks3 = append(append(ks3, fill...), all...)
+			case "middle":
+				ks3 = append(append(append(ks3, "a", "b"), fill...), "c", "d")
+			case "back":
+				ks3 = append(append(ks3, all...), fill...)
+			}
+			out = append(out, readCase{name: "bget-oversize(" + p + "-fillers-" + shape + ")", keys: func([]string) []string { return ks3 }, run: func(s *txnsnapshot.KVSnapshot) (map[string]string, []string, error) {
+				bk := make([][]byte, len(ks3))
+				for i, k := range ks3 {
+					bk[i] = []byte(k)
+				}
+				m, err := s.BatchGet(ctx, bk)
+				if err != nil {
+					return nil, nil, err
+				}
+				r := map[string]string{}
+				for k, v := range m {
+					r[k] = string(v.Value)
+				}
+				return r, nil, nil
+			}})
+		}
+	}
 	bounds := []string{"", "a", "b", "bb", "c", "d"}
 	for _, rev := range []bool{false, true} {
 		if rev && !mock {
